@@ -119,7 +119,7 @@ func (fx *FuncVC) runTop() {
 	var params []Val
 	for i, p := range fn.Params {
 		v := fx.freshVal(p.Type(), p.Name())
-		if i == 0 && fn.Signature.Recv() != nil {
+		if i == 0 && fn.Signature.Recv() != nil && spec.Options["nilable-receiver"] == "" {
 			if pv, ok := v.(PtrV); ok {
 				fx.assumeRaw(Not(Eq(pv.Ref, IntC(0))))
 			}
